@@ -138,4 +138,86 @@ def modelFullObs (s : Str) : FullObs :=
   | some q => .ok q (print q) (print q) (absRaw q)
   | none => .badKey
 
+
+/-! ## histories: the payload clause on EVERY request of a sequence on one service
+
+  "…the payload returned for an entry is that entry's content templated with exactly the variables supplied" is read
+  for each request by itself, against the backend AS IT IS when the request is made: the entry's content (with its
+  `include`/`extends` references resolved in that same backend) with every `{{ name }}` replaced by the value THIS
+  request supplies for `name` — nothing an earlier request supplied, nothing an earlier state of the backend held. -/
+
+/-- an observed response -/
+inductive ObsItem where
+  | pay (p : Payload)
+  | res (r : Resolved) (p : Payload)
+  | dash
+  deriving Repr
+
+/-- the entry the query names, linked against the backend `t` (the entry itself is read by its key, the files it
+    refers to the way the template loader reads them) -/
+def linkedEntry (t : List Leaf) (q : Query) : LinkRes (List Seg) :=
+  match yamlGet t (absRaw q) with
+  | none => .err "load"
+  | some content =>
+    (linkContent (linkPath t.length t (basePathOf (print q))) (basePathOf (print q)) content).map flatten
+
+/-- the payload clause for one processed request -/
+def templatedOk (t : List Leaf) (q : Query) (vars : List (Str × Str)) (p : Payload) : Bool :=
+  match linkedEntry t q with
+  | .unmodelled => true
+  | .err _ => (match p with | .err _ => true | _ => false)
+  | .ok segs =>
+    if (bindings vars).all (fun kv => validIdent kv.1) then
+      match p with | .ok s => s == renderSegs (fun n => lookup (bindings vars) n) segs | _ => false
+    else match p with | .err _ => true | _ => false
+
+/-- every response of a history, each judged against the backend of its moment -/
+def seqOk : List Leaf → List Op → List ObsItem → Bool
+  | _, [], [] => true
+  | t, .proc q vars :: ops, .pay p :: os => templatedOk t q vars p && seqOk t ops os
+  | t, .rproc q vars :: ops, .res r p :: os =>
+    resolutionOk (yamlExists t) q r &&
+    (match r with
+     | .ok rq _ => templatedOk t rq vars p
+     | _ => p == .dash) && seqOk t ops os
+  | t, .get q :: ops, .pay p :: os => payloadOk t q p && seqOk t ops os
+  | t, .inval :: ops, .dash :: os => seqOk t ops os
+  | t, .put key content :: ops, .dash :: os => seqOk (putLeaf t key content) ops os
+  | t, .del key :: ops, .dash :: os => seqOk (delLeaf t key) ops os
+  | _, _, _ => false
+
+/-- every query of the history could have been spelled as a query string -/
+def opsWf : List Op → Bool
+  | [] => true
+  | .proc q _ :: r => wf q && opsWf r
+  | .rproc q _ :: r => wf q && opsWf r
+  | _ :: r => opsWf r
+
+/-- the values one request supplies for the names its (linked) entry mentions are free of the autoescaped characters -/
+def reqEscapeFree (t : List Leaf) (q : Query) (vars : List (Str × Str)) : Bool :=
+  match linkedEntry t q with
+  | .ok segs => (varNames segs).all fun n => escapeFree (lookup (bindings vars) n)
+  | _ => true
+
+/-- …for every request of a history -/
+def seqEscapeFree : List Leaf → List Op → Bool
+  | _, [] => true
+  | t, .proc q vars :: r => reqEscapeFree t q vars && seqEscapeFree t r
+  | t, .rproc q vars :: r =>
+    (match resolve (yamlExists t) q with
+     | some rq => reqEscapeFree t rq vars
+     | none => true) && seqEscapeFree t r
+  | t, .put key content :: r => seqEscapeFree (putLeaf t key content) r
+  | t, .del key :: r => seqEscapeFree (delLeaf t key) r
+  | t, _ :: r => seqEscapeFree t r
+
+def obsOfResp : Resp → ObsItem
+  | .pay p => .pay p
+  | .res (some r) p => .res (.ok r (print r)) p
+  | .res none p => .res .unresolved p
+  | .dash => .dash
+
+/-- what the model answers to a history on one service that starts fresh (printed by the driver as `modelObs`) -/
+def modelSeqObs (t : List Leaf) (ops : List Op) : List ObsItem := (run (freshSvc t) ops).map obsOfResp
+
 end Spec.C20
